@@ -127,13 +127,16 @@ CHECKS = {
         level="fault_enumeration",
         rule="rapid op-lists (1..80 ops quick, ..300 thorough) over 1..6 (16) vBuckets: deliver(kind,gap,snapshot layout) / ack(next<=n, in order) / "
              "save ok|rejected(after j per-vBucket writes) / savebegin..saveend (ops interleaved while the store call is blocked) / crash (in-flight "
-             "save applies j of its writes in a generated order) followed by a restart on the same durable store, executed against the real "
+             "save applies j of its writes in a generated order) followed by a restart on the same durable store / savequeue (a second Save behind one in "
+             "flight) / transient and final stream ends (reopen from the settled position, unacknowledged events delivered again) / rebalance, "
+             "executed against the real "
              "stream+checkpoint+observers; oracle 1 at every durable write, oracle 2 + re-delivery at every crash. Every prefix of a shrunk history is "
              "itself a generated history, so every step is a crash point. non-trivial = a crash with >=1 delivered-but-unacknowledged event "
              "outstanding and >=1 durable write before it; distinct by hash of the op-list",
         assumptions=HIST_ASSUME,
         units=[rapid("TestC01_History", 6000, 400000), plain("TestC01_KnownFindings")],
-        min_share=dict(any={"crash_mid_save": ["histories", 0.10], "ack_delayed_across_save": ["histories", 0.20], "crash_outstanding_after_write": ["histories", 0.10]}),
+        min_share=dict(any={"crash_mid_save": ["histories", 0.10], "ack_delayed_across_save": ["histories", 0.20], "crash_outstanding_after_write": ["histories", 0.10],
+                            "end_transient_after_events": ["histories", 0.10]}),
     ),
     "C02": dict(
         level="exploration",
@@ -158,12 +161,15 @@ CHECKS = {
              "expiration / 6 system-event kinds / seqno-advanced / OSO markers; keys empty, binary, reserved prefixes and partial / shifted "
              "prefixes; CAS full-range plus values within +-1 s / +-1 ns of skipUntil; collection ids configured / unlisted / 0; revNo, flags, "
              "expiry, lockTime, datatype, deleteTime full-range; single/multi/back-to-back snapshots; skipUntil nil / whole second / with "
-             "nanoseconds / extreme. Oracle: per vBucket the delivered list equals, as a sequence, the input minus reserved-prefix keys minus "
-             "events whose CAS-second is before skipUntil; every field, collection name, event time and offset compared with what was sent. "
+             "nanoseconds / extreme; a third of the vBuckets are streamed 'after a server-requested rollback' (observer.SetCatchup(F) as "
+             "client.go does, F = a generated event's seqno -1/0/+1, incl. F at a snapshot start). Oracle: per vBucket the delivered list "
+             "equals, as a sequence, the input minus reserved-prefix keys minus events whose CAS-second is before skipUntil minus events at or "
+             "below F; every field, collection name, event time and offset compared with what was sent. "
              "non-trivial = >=2 vBuckets, >=1 delivered and >=1 filtered event, >=2 snapshots on some vBucket",
         assumptions=HIST_ASSUME[:1] + [HIST_ASSUME[2], "Layer A emulates gocbcore's decode-and-dispatch (dcpcomponent.go); the wire path is exercised in C08/C02 on the simulated node"],
         units=[rapid("TestC03_Delivery", 6000, 500000)],
-        min_share=dict(any={"filtered_skip_until": ["cases", 0.15], "filtered_reserved_key": ["cases", 0.3], "multi_snapshot": ["cases", 0.5]}),
+        min_share=dict(any={"filtered_skip_until": ["cases", 0.15], "filtered_reserved_key": ["cases", 0.3], "multi_snapshot": ["cases", 0.5],
+                            "filtered_catchup": ["cases", 0.25], "catchup_at_snapshot_start": ["cases", 0.05]}),
     ),
     "C04": dict(
         level="exploration",
@@ -195,14 +201,17 @@ CHECKS = {
         level="exploration",
         rule="rapid op-lists on the Layer-A history engine: single-item / multi-item / back-to-back snapshots, markers starting at last or last+1, "
              "sessions resumed mid-snapshot after a crash (server re-announces a range), seqno-advanced replacing the snapshot, late acks (event of "
-             "snapshot k acknowledged after later markers), saves at every point, and (1.2% of deliveries) an invalid server event outside its "
+             "snapshot k acknowledged after later markers), saves at every point, failovers (the server's failover log of a vBucket gets a new newest "
+             "entry; the next stream request is answered on the new branch), and (1.2% of deliveries) an invalid server event outside its "
              "announced snapshot. Oracle on every delivered Offset, every TrackOffset argument and every persisted document: start<=seq<=end and "
-             "the 4-tuple is a member of the set {resume tuple} U {(stream vbUUID, seq, announced snapshot) of one event}; an outside event is never "
+             "the 4-tuple is a member of the set {resume tuple} U {(stream vbUUID, seq, announced snapshot) of one event}; a stream requested from a stored checkpoint must be requested from such a "
+             "tuple of that vBucket (not a mixture of two branches / events); an outside event is never "
              "delivered and stops the client (panic on the feeding goroutine = process stop in production). non-trivial = an ack issued after >=2 "
              "later markers of that vBucket and a successful save in the history",
         assumptions=HIST_ASSUME,
         units=[rapid("TestC06_History", 6000, 400000)],
-        min_share=dict(any={"ack_after_2_later_markers": ["histories", 0.2], "outside_snapshot": ["histories", 0.05], "backlog_resent": ["histories", 0.1]}),
+        min_share=dict(any={"ack_after_2_later_markers": ["histories", 0.2], "outside_snapshot": ["histories", 0.05], "backlog_resent": ["histories", 0.1],
+                            "reload_after_failover": ["histories", 0.05]}),
     ),
     "C12": dict(
         level="fault_enumeration",
@@ -327,13 +336,16 @@ CHECKS = {
         rule="exhaustive enumeration of (N,T), 1<=T<=N, every member inspected (quick: N in 1..256,512,1024; "
              "thorough: N in 1..1024 complete) through helpers.ChunkSlice, all (T, member) for N in {64,128,1024} "
              "through the real stream.NewVBucketDiscovery(static).Get(), plus rapid-sampled (N,T,member) with "
-             "neighbour adjacency; non-trivial = N not divisible by T; enumerated cases are distinct by "
-             "construction, sampled ones by hash of (N,T,m)",
+             "neighbour adjacency; plus membership histories on ONE discovery object (dynamic membership, 1..12 changes incl. same "
+             "group size with another member number and unchanged info re-published; every answer compared with a fresh object's); non-trivial = N not divisible by T (histories: a renumbering with the "
+             "same group size); enumerated cases are distinct by construction, sampled ones by hash",
         assumptions=["T<=N and member number in 1..T as the property states (callers: config validation is the user's)"],
         units=[
             enum("TestC09_ChunkExhaustive"),
             enum("TestC09_DiscoveryExhaustive"),
             rapid("TestC09_Rapid", 20000, 400000),
+            rapid("TestC09_DiscoveryHistory", 3000, 200000),
         ],
+        min_share=dict(any={"renumbered_same_group_size": ["discovery_histories", 0.3]}),
     ),
 }
